@@ -2,15 +2,15 @@
 (* MC form: CfgArea on small layouts with a menu of writes; the lemmas below are what the design of the area   *)
 (* guarantees (and what the trace form demands from the real code).                                             *)
 EXTENDS CfgArea
-Menu(w) == {{}, {0}, {w - 1}, AllBits(w)}
+Menu(w) == {<<>>, <<0>>, <<w - 1>>, [i \in 1..w |-> i - 1]}                       \* bit lists, as in the traces
 FieldTargets == UNION {{<<r, f>> : f \in {g \in Flds(L, r) : ~Fld(L, r, g).hidden}} : r \in {x \in Leaves(L) : ~Reg(L, x).hidden}}
 Role(r, f) == IF f > 0 THEN (IF Reg(L, r).comp # "" THEN "compfield" ELSE "field")
               ELSE IF Reg(L, r).kind = "group" THEN "group" ELSE "reg"
 \* whole-value writes: groups and registers without bit-fields (a computed register is configured through its bit-fields)
 WholeTargets == {r \in Regs(L) : /\ Reg(L, r).comp = "" /\ ~Reg(L, r).hidden /\ Reg(L, r).parent = 0
                                  /\ (Reg(L, r).kind = "group" \/ Flds(L, r) = {})}
-WriteMenu == UNION {{[cls |-> Role(t[1], t[2]), ws |-> <<[r |-> t[1], f |-> t[2], v |-> V]>>] : V \in Menu(Fld(L, t[1], t[2]).width)} : t \in FieldTargets}
-             \cup UNION {{[cls |-> Role(r, 0), ws |-> <<[r |-> r, f |-> 0, v |-> V]>>] : V \in Menu(W(L, r))} : r \in WholeTargets}
+WriteMenu == UNION {{[cls |-> Role(t[1], t[2]), ws |-> <<[r |-> t[1], f |-> t[2], v |-> V, aw |-> 0]>>] : V \in Menu(Fld(L, t[1], t[2]).width)} : t \in FieldTargets}
+             \cup UNION {{[cls |-> Role(r, 0), ws |-> <<[r |-> r, f |-> 0, v |-> V, aw |-> 0]>>] : V \in Menu(W(L, r))} : r \in WholeTargets}
 DoSetValues == \E m \in WriteMenu : SetValues(m.ws)
 DoExport == \E s \in {FALSE} \cup (IF L.seal # <<>> THEN {TRUE} ELSE {}) : Export(s)
 Next == NewObject \/ Template \/ GetConfig \/ LoadConfig \/ DoSetValues \/ DoExport \/ Parse
@@ -34,7 +34,7 @@ SealedExportSealed == (act.a = "Export" /\ act.seal) => SealHolds(L, bin.b)
 SecondObjectFresh == act.a = "NewObject" => bits = Fresh(L)
 \* a whole-register / group write is read back in full width through the configuration view (ROTKH: all 48 bytes)
 FullWidthReadBack == (act.a = "SetValues" /\ Len(act.w) = 1 /\ act.w[1].f = 0) => View(L, bits, act.w[1].r, FALSE) = ToSet(act.w[1].v)
-FieldReadBack == (act.a = "SetValues" /\ Len(act.w) = 1 /\ act.w[1].f > 0) =>
+FieldReadBack == (act.a = "SetValues" /\ Len(act.w) = 1 /\ act.w[1].f > 0 /\ ~(act.w[1].r = L.sizefld.r /\ act.w[1].f = L.sizefld.f)) =>
                     RawField(L, bits, act.w[1].r, act.w[1].f) = PreProc(L, act.w[1].r, act.w[1].f, ToSet(act.w[1].v))
 \* everything but SetValues / object creation leaves the current object alone
 Frozen == [][act'.a \in {"Template", "GetConfig", "Export"} => bits' = bits /\ gen' = gen]_vars
